@@ -25,6 +25,9 @@ LEAN_MODULE = "LiquidVerif.Props.C03"
 TRANSLATE = True
 EXTRA_THEOREM_FILES = [("LiquidVerif.Gen.ModeSites", "LiquidVerif.Gen.ModeSites")]
 RULE = (
+    "DEEPENED: the token model now also covers case/when/else (own loop, junk skipping), with/tablerow (parse shape), "
+    "ifchanged (parse shape) and the async render loop as its own function; pool/small/tokens put case, when, with and "
+    "ifchanged into the token programs. "
     "stream pool: every labelled expression of the token generator alone in its tag (exhaustive; validates the labels "
     "parse-ok / raises / strict-only and the evaluation result); stream small: every token sequence of length<=L over a "
     "20-letter alphabet of block openers, closers, orphans, good and bad expressions (exhaustive); stream tokens: random "
@@ -45,7 +48,8 @@ RULE = (
 TRUSTED_BASE = [
     "Lean 4.33 kernel; axioms subset of {propext, Classical.choice, Quot.sound}",
     "hand-written model LiquidVerif/Model/Mode.lean of environment.error, parser.py, tag.py, the tag parsers of "
-    "content/output/assign-like tags/break/continue/for/capture/if/unless, and template.render_with_context",
+    "content/output/assign-like tags/break/continue/for/capture/if/unless/case-when/with/tablerow/ifchanged, "
+    "template.render_with_context and render_with_context_async (Model/ModeAsync.lean)",
     "translator tools/emitters/c03_mode_sites.py (Python ast): inventory and shape classification of every mode consultation",
     "the abstraction of an expression token to (parser behaviour by mode, mode-independent evaluation) — justified by "
     "all_sites_benign (the only mode consultations inside expression parsers are strict-only raise guards) and sampled by the pool stream",
@@ -54,8 +58,10 @@ TRUSTED_BASE = [
 ASSUMPTIONS = [
     "non-Liquid exceptions (TypeError, ValueError … escaping filters) are C02's business: a case in which some mode raises a "
     "non-Liquid exception is recorded and excluded from the comparisons that involve that mode",
-    "tags whose parser is not modelled token-exactly (case/when, tablerow, liquid, ifchanged, raw/comment/doc, macro, with, "
-    "block, translate) are covered by the direct oracle on the modes stream and by the mode-site inventory, not by the token model",
+    "tags whose parser is not modelled token-exactly (liquid, raw/comment/doc, macro/call, block, translate) are covered by "
+    "the direct oracle on the modes stream and by the mode-site inventory, not by the token model; tablerow and ifchanged are "
+    "modelled for parsing only (their rendering — row markup, ifchanged's own buffer and memory — is not: ifchanged appears "
+    "once per case and without failing expressions, tablerow not at all in the model-compared streams)",
     "the context-depth budget of the model counts nested render_with_context calls; Python counts scopes (generated partials are acyclic)",
     "Python's warnings filters are set to 'always' by the harness (the default filter would de-duplicate repeated warnings)",
 ]
@@ -63,7 +69,9 @@ MANIFEST = {
     "technique": "Lean 4 proof (induction over the token list, the block-nesting budget and the context-depth budget) about a "
     "token-level model of the parse loops and the render loop + translator-generated inventory of every mode consultation + "
     "three-mode differential correspondence",
-    "text": "lax_never_raises, warn_reports_each and strict_ok_implies_same are proved for every token stream (malformed "
+    "text": "(deepened: the converse strict_fails_implies_lax_suppresses / _warn_warns on guard-free streams, the async loop "
+    "as its own function with async_run_equals_sync_run, case/when/with/tablerow/ifchanged parsers inside the model) "
+    "lax_never_raises, warn_reports_each and strict_ok_implies_same are proved for every token stream (malformed "
     "expressions, unknown tags, orphaned else/break/continue, unbalanced blocks), every state type and every mode-independent "
     "expression semantics, at every nesting depth; all_sites_benign is re-decided by the kernel against the inventory of mode "
     "consultations regenerated from the source on every run; the model is tied to the code by running exhaustive small token "
@@ -104,6 +112,12 @@ def _shape(nodes):
             out.append("F(" + _shape(n.block.nodes) + "|" + (_shape(n.default.nodes) if n.default else "") + ")")
         elif c == "CaptureNode":
             out.append("A(" + _shape(n.block.nodes) + ")")
+        elif c == "CaseNode":
+            out.append("W(" + "".join(("M(" + _shape(b.block.nodes) + ")") if type(b).__name__ == "MultiExpressionBlockNode" else ("L(" + _shape(b.nodes) + ")") for b in n.blocks) + ")")
+        elif c in ("WithNode", "TablerowNode"):
+            out.append("Y(" + _shape(n.block.nodes) + ")")
+        elif c == "IfChangedNode":
+            out.append("G(" + _shape(n.block.nodes) + ")")
         else:
             out.append("E")
     return "".join(out)
@@ -415,7 +429,7 @@ OUT_POOL = [
     ("'x' | append: 'a' 'b'", BAD, None),
     ("a['b']c", SO, ["ok", "", 0]),
     ("a[1]c", SO, ["ok", "", 0]),
-    ("a. | default: 'd'", SO, ["ok", "d", 1]),
+    ("zz. | default: 'd'", SO, ["ok", "d", 1]),
     ("'x' | append: 'a',, 'b'", SO, ["err", "FilterArgumentError"]),
 ]
 ASSIGN_POOL = [
@@ -447,6 +461,19 @@ FOR_POOL = [
     ("in (1..3)", BAD, None),
     ("i in a['b']c", SO, ["ok", "", 0]),
 ]
+# `case 1`: the `when` expressions are labelled with the number of their values equal to 1
+CASE_POOL = [("1", OK, ["ok", "", 0]), ("1", OK, ["ok", "", 0]), ("1 2", BAD, None), ("", BAD, None)]
+WHEN_POOL = [
+    ("1", OK, ["ok", "", 1]),
+    ("2", OK, ["ok", "", 0]),
+    ("1, 1", OK, ["ok", "", 2]),
+    ("2 or 1", OK, ["ok", "", 1]),
+    ("nosuch, 3", OK, ["ok", "", 0]),
+    ("==", BAD, None),
+    ("", BAD, None),
+    ("a['b']c", SO, ["ok", "", 0]),
+]
+WITH_POOL = [("p: 1", OK, ["ok", "", 0]), ("p: 1, q: 'x'", OK, ["ok", "", 0]), ("p 1", BAD, None), ("p: 1 q: 2", SO, ["ok", "", 0])]
 CAPTURE_POOL = [("v", OK, ["ok", "", 0]), ("v w", BAD, None), ("v |", BAD, None)]
 EXTENDS_POOL = [("'base'", OK, ["ok", "base", 0]), ("'missing'", OK, ["ok", "missing", 0]), ("'base' x", BAD, None)]
 
@@ -461,10 +488,10 @@ def partial_pool(names, kind):
 
 POOLS = {
     "output": OUT_POOL, "echo": OUT_POOL, "assign": ASSIGN_POOL, "if": COND_POOL, "unless": COND_POOL, "elsif": COND_POOL,
-    "for": FOR_POOL, "capture": CAPTURE_POOL, "extends": EXTENDS_POOL,
+    "for": FOR_POOL, "capture": CAPTURE_POOL, "extends": EXTENDS_POOL, "case": CASE_POOL, "when": WHEN_POOL, "with": WITH_POOL,
 }
 TEXTS = ["a", "b ", "x-", "Hello ", "<p>", "é"]
-ORPHANS = ["else", "elsif", "endif", "endfor", "endunless", "endcapture", "when", "endcase", "nosuchtag", "break", "continue", ""]
+ORPHANS = ["else", "elsif", "endif", "endfor", "endunless", "endcapture", "endcase", "nosuchtag", "break", "continue", "", "endwith"]
 
 
 def orphan(rng):
@@ -473,6 +500,10 @@ def orphan(rng):
     if not rng.chance(30):
         return tok_t(name, None)
     return tok_t(name, rng.choice(COND_POOL) if name == "elsif" else ("x y", OK, None))
+
+
+def orphan_when(rng):
+    return tok_t("when", rng.choice(WHEN_POOL))
 
 
 def tok_c(s):
@@ -528,7 +559,8 @@ def model_toks(toks):
 
 
 class TokGen:
-    def __init__(self, rng, partial_names=(), allow_partials=True, allow_extends=False, bad=12):
+    def __init__(self, rng, partial_names=(), allow_partials=True, allow_extends=False, bad=12, allow_with=False):
+        self.allow_with = allow_with
         self.r = rng
         self.pn = list(partial_names)
         self.allow_partials = allow_partials
@@ -557,6 +589,13 @@ class TokGen:
             return [tok_c(r.choice(TEXTS))] if r.chance(50) else [tok_o(self.expr("output"))]
         if k < 38:
             return [tok_t(r.choice(["assign", "echo"]), None)] if r.chance(8) else [tok_t("assign", self.expr("assign"))] if r.chance(50) else [tok_t("echo", self.expr("echo"))]
+        if k < 43:
+            out = [tok_t("case", self.expr("case"))] + ([tok_c(" junk ")] if r.chance(15) else [])
+            for _ in range(r.choice([0, 1, 1, 2, 3])):
+                out += ([tok_t("when", self.expr("when"))] if r.chance(80) else [tok_t("else")]) + self.block(depth + 1)
+            if r.chance(40):
+                out += [tok_t("else")] + self.block(depth + 1)
+            return out + [tok_t("endcase")]
         if k < 58:
             name = r.choice(["if", "if", "unless"])
             out = [tok_t(name, self.expr(name))] + self.block(depth + 1)
@@ -575,8 +614,10 @@ class TokGen:
             if r.chance(30):
                 out += [tok_t("else")] + self.block(depth + 1)
             return out + [tok_t("endfor")]
-        if k < 78:
+        if k < 76:
             return [tok_t("capture", self.expr("capture"))] + self.block(depth + 1) + [tok_t("endcapture")]
+        if k < 78 and self.allow_with:
+            return [tok_t("with", self.expr("with"))] + self.block(depth + 1) + [tok_t("endwith")]
         if k < 84:
             # an interrupt outside a loop is itself an error: mostly keep them inside loops
             return [tok_t(r.choice(["break", "continue"]))] if (self.in_loop or r.chance(15)) else [tok_c(r.choice(TEXTS))]
@@ -606,7 +647,7 @@ def damage(rng, toks, pn):
         toks[i], toks[j] = toks[j], toks[i]
     elif k == 4:
         # garble or drop an expression
-        idx = [n for n, t in enumerate(toks) if t["k"] != "c" and t.get("x") is not None and (t["k"] == "o" or t["n"] in POOLS or t["n"] in ("include", "render"))]
+        idx = [n for n, t in enumerate(toks) if t["k"] != "c" and t.get("x") is not None and (t["k"] == "o" or t["n"] in POOLS or t["n"] in ("include", "render")) and t["n" if t["k"] == "t" else "k"] != "else"]
         if idx:
             n = rng.choice(idx)
             t = dict(toks[n])
@@ -622,7 +663,7 @@ def damage(rng, toks, pn):
         # cut the tail: unbalanced blocks
         toks = toks[: max(1, i)]
     elif k == 6:
-        name = rng.choice(["if", "for", "unless", "capture"])
+        name = rng.choice(["if", "for", "unless", "capture", "case", "when"])
         toks.insert(i, tok_t(name, rng.choice(POOLS[name]) if rng.chance(60) else None))
     else:
         name = rng.choice(["endif", "endfor", "else", "elsif"])
@@ -641,7 +682,8 @@ def gen_tok_case(rng, damage_pct=45):
     base = [tok_c("<base ")] + TokGen(rng, [], allow_partials=False).block(1) + [tok_c(">")]
     partials = {"p0": p0, "p1": p1, "pb": pb, "base": base}
     extends = rng.chance(8)
-    g = TokGen(rng, ["p0", "p1", "pb"], allow_extends=extends, bad=rng.choice([0, 0, 3, 8, 30]))
+    extra = extends or rng.chance(30)
+    g = TokGen(rng, ["p0", "p1", "pb"], allow_extends=extends, bad=rng.choice([0, 0, 3, 8, 30]), allow_with=extra)
     toks = g.block(0) + g.block(0)
     if extends and rng.chance(60):
         toks = [tok_t("extends", ("'base'", OK, ["ok", "base", 0]))] + toks
@@ -665,7 +707,7 @@ def gen_tok_case(rng, damage_pct=45):
         "toks": normalise(toks),
         "partials": {n: normalise(t) for n, t in partials.items()},
         "nest": rng.choice([100, 100, 100, 3, 2, 1]),
-        "extra": bool(extends),
+        "extra": bool(extra),
     }
 
 
@@ -693,7 +735,8 @@ class TokenStreamBase(Stream):
 
     def canon_model(self, case, mobs):
         if isinstance(mobs, dict) and all(m in mobs for m in MODES):
-            return {m: {"parse": mobs[m]["parse"], "run": mobs[m]["run"], "arun": mobs[m]["run"]} for m in MODES}
+            # "arun" is the model's own async loop (Model/ModeAsync.lean: runAsync)
+            return {m: {"parse": mobs[m]["parse"], "run": mobs[m]["run"], "arun": mobs[m].get("arun", {"missing": True})} for m in MODES}
         return mobs
 
     def oracle(self, case, obs):
@@ -760,6 +803,23 @@ class PoolStream(TokenStreamBase):
             add([tok_c("a"), tok_t("for", x), tok_c("y"), tok_t("else"), tok_c("n"), tok_t("endfor"), tok_c("b")])
         for x in CAPTURE_POOL:
             add([tok_c("a"), tok_t("capture", x), tok_c("y"), tok_t("endcapture"), tok_c("b")])
+        for x in CASE_POOL[1:]:
+            add([tok_c("a"), tok_t("case", x), tok_t("when", WHEN_POOL[0]), tok_c("y"), tok_t("else"), tok_c("n"), tok_t("endcase"), tok_c("b")])
+        add([tok_c("a"), tok_t("case", None), tok_t("when", WHEN_POOL[0]), tok_c("y"), tok_t("endcase"), tok_c("b")])
+        for x in WHEN_POOL:
+            add([tok_c("a"), tok_t("case", CASE_POOL[0]), tok_c(" junk "), tok_t("when", x), tok_c("y"), tok_t("else"), tok_c("n"), tok_t("endcase"), tok_c("b")])
+            add([tok_t("case", CASE_POOL[0]), tok_t("when", WHEN_POOL[1]), tok_c("z"), tok_t("else"), tok_c("m"), tok_t("when", x), tok_c("y"), tok_t("else"), tok_c("n"), tok_t("endcase")])
+        add([tok_t("case", CASE_POOL[0]), tok_t("when", None), tok_c("y"), tok_t("endcase"), tok_c("b")])
+        add([tok_t("case", CASE_POOL[0]), tok_t("when", WHEN_POOL[0]), tok_c("y")])
+        add([tok_t("case", CASE_POOL[0]), tok_t("when", WHEN_POOL[0]), tok_c("y"), tok_t("endif"), tok_t("endcase"), tok_c("b")])
+        add([tok_t("case", CASE_POOL[0]), tok_t("if", COND_POOL[0]), tok_t("endif"), tok_t("when", WHEN_POOL[0]), tok_c("y"), tok_t("endcase")])
+        for x in WITH_POOL:
+            add([tok_c("a"), tok_t("with", x), tok_c("y"), tok_o(OUT_POOL[0]), tok_t("endwith"), tok_c("b")], extra=True)
+        add([tok_c("a"), tok_t("with", None), tok_c("y"), tok_t("endwith"), tok_c("b")], extra=True)
+        add([tok_c("a"), tok_t("with", WITH_POOL[0]), tok_c("y")], extra=True)
+        add([tok_c("a"), tok_t("ifchanged"), tok_c("y"), tok_o(OUT_POOL[0]), tok_t("endifchanged"), tok_c("b")])
+        add([tok_c("a"), tok_t("ifchanged", ("x", OK, None)), tok_c("y"), tok_t("endifchanged"), tok_c("b")])
+        add([tok_c("a"), tok_t("ifchanged"), tok_c("y"), tok_t("endif"), tok_c("b")])
         for kind in ("include", "render"):
             for x in partial_pool(["p0"], kind):
                 add([tok_c("a"), tok_t(kind, x), tok_c("b")])
@@ -800,6 +860,15 @@ class SmallStream(TokenStreamBase):
         D = ctx.scale(3, 4)
         for seq in itertools.product(range(len(core)), repeat=D):
             out.append({"toks": normalise([core[i] for i in seq]), "partials": {}, "nest": 2 if (len(out) % 3 == 0) else 100, "extra": False})
+        # case / when skeletons (own loop, else blocks, junk, orphans) and `with`
+        cw = [
+            tok_c("a"), tok_t("case", CASE_POOL[0]), tok_t("case", CASE_POOL[2]), tok_t("when", WHEN_POOL[0]), tok_t("when", WHEN_POOL[1]),
+            tok_t("when", WHEN_POOL[2]), tok_t("when", WHEN_POOL[5]), tok_t("else"), tok_t("endcase"), tok_o(OUT_POOL[4]),
+            tok_t("if", COND_POOL[0]), tok_t("endif"), tok_t("with", WITH_POOL[0]), tok_t("endwith"),
+        ]
+        for n in range(1, ctx.scale(3, 4) + 1):
+            for seq in itertools.product(range(len(cw)), repeat=n):
+                out.append({"toks": normalise([cw[i] for i in seq]), "partials": {}, "nest": 100, "extra": True})
         return out
 
 
